@@ -3,3 +3,4 @@ NEXT GenNext
 CONSTANTS
   Chunkings = "few"
   Lens = {0, 64}
+  LifeLen = 3
